@@ -1002,12 +1002,30 @@ Proof.
   - apply (vt_ok_frame v v' Hok Hf); assumption.
 Qed.
 
-Lemma scroll_ok : forall v slrm r d rt, vt_ok v -> in_range (RScroll r d rt) v ->
+(* the exact cell-wise description: the rectangle's cells are shifted by (d, rt), the vacated ones are
+   blank in the current rendition's background, nothing else changes *)
+Definition scroll_shift (v v' : vt) (r : rect) (d rt : Z) : Prop :=
+  same_frame v v' /\ 0 <= row v' < v_lines v /\ 0 <= col v' < v_cols v /\
+  (forall y x, v_grid v' y x =
+               if in_rect r y x
+               then (if in_rect r (y + d) (x + rt) then v_grid v (y + d) (x + rt) else blank v)
+               else v_grid v y x).
+
+Definition scroll_res (ret : bool) (ts : list token) (v : vt) (r : rect) (d rt : Z) : Prop :=
+  if ret then scroll_shift v (vt_run ts v) r d rt else ts = [].
+
+Lemma scroll_shift_intro : forall v v' r d rt, vt_ok v ->
+  same_frame v v' -> 0 <= row v' < v_lines v -> 0 <= col v' < v_cols v ->
+  (forall y x, v_grid v' y x =
+               if in_rect r y x
+               then (if in_rect r (y + d) (x + rt) then v_grid v (y + d) (x + rt) else blank v)
+               else v_grid v y x) ->
+  scroll_shift v v' r d rt.
+Proof. intros v v' r d rt _ H1 H2 H3 H4. exact (conj H1 (conj H2 (conj H3 H4))). Qed.
+
+Lemma scroll_exact : forall v slrm r d rt, vt_ok v -> in_range (RScroll r d rt) v ->
   (slrm = true -> md_lrmm (v_md v) = true) ->
-  effect_ok (RScroll r d rt) (fst (xt_scrollrect slrm (v_cols v) r d rt))
-            (match snd (xt_scrollrect slrm (v_cols v) r d rt) with [] => true | _ => false end) v
-            (vt_run (snd (xt_scrollrect slrm (v_cols v) r d rt)) v) /\
-  vt_ok (vt_run (snd (xt_scrollrect slrm (v_cols v) r d rt)) v).
+  scroll_res (fst (xt_scrollrect slrm (v_cols v) r d rt)) (snd (xt_scrollrect slrm (v_cols v) r d rt)) v r d rt.
 Proof.
   intros v slrm r d rt Hok Hr Hlrmm.
   pose proof (full_margins_of_ok v Hok) as Hm.
@@ -1018,13 +1036,13 @@ Proof.
   unfold r_right, r_bottom. cbn [r_top r_left r_lines r_cols].
   destruct ((d =? 0) && (rt =? 0)) eqn:E0.
   { (* nothing to move *)
-    cbn [fst snd]. rewrite vt_run_nil.
-    apply scroll_effect; try assumption; [apply same_frame_refl|].
+    cbn [fst snd scroll_res]. rewrite vt_run_nil.
+    apply scroll_shift_intro; try assumption; [apply same_frame_refl|].
     intros y x. assert (d = 0) by lia. assert (rt = 0) by lia. subst d rt. rewrite !Z.add_0_r.
     destruct (in_rect (mkRect top left lines cols) y x); reflexivity. }
   destruct (((slrm && (lines =? 1)) || (left + cols =? v_cols v)) && (d =? 0)) eqn:E1.
   { (* strategy 1 *)
-    cbn [fst snd]. assert (d = 0) by lia. subst d.
+    cbn [fst snd scroll_res]. assert (d = 0) by lia. subst d.
     destruct (left + cols <? v_cols v) eqn:E2.
     - (* with a right margin *)
       assert (Hs : slrm = true) by (destruct slrm; [reflexivity|lia]).
@@ -1038,7 +1056,7 @@ Proof.
       set (w2 := vt_run (scroll_lines (Z.to_nat lines) top left rt) w1) in *. clearbody w2.
       destruct F2 as (A1 & A2 & A3 & A4 & A5). unfold w1 in A1, A2, A3, A4, A5, Hrow2, Hcol2, Hg2. vt_unfold.
       rewrite run_decslrm_reset by (rewrite ?A5, ?A2; assumption || lia).
-      apply scroll_effect; try assumption.
+      apply scroll_shift_intro; try assumption.
       + unfold same_frame. vt_unfold. cbn [mg_top mg_bot mg_left mg_right].
         refine (conj _ (conj _ (conj _ (conj _ _)))); try congruence.
         rewrite A3. cbn [mg_top mg_bot]. rewrite Hm. unfold full_margins. cbn [mg_top mg_bot].
@@ -1060,7 +1078,7 @@ Proof.
       cbn [app]. rewrite app_nil_r.
       destruct (scroll_lines_run (Z.to_nat lines) top v rt left (v_cols v - 1))
         as (F2 & Hrow2 & Hcol2 & Hg2); try (assumption || lia).
-      apply scroll_effect; try assumption.
+      apply scroll_shift_intro; try assumption.
       intros y x. rewrite Hg2. unfold in_rect, r_bottom, r_right. cbn [r_top r_left r_lines r_cols].
       rewrite Z.add_0_r.
       destruct ((top <=? y) && (y <? top + Z.of_nat (Z.to_nat lines)) && (left <=? x) && (x <=? v_cols v - 1)) eqn:B1.
@@ -1074,11 +1092,11 @@ Proof.
         reflexivity. }
   destruct (slrm || ((left =? 0) && (cols =? v_cols v) && (rt =? 0))) eqn:E3.
   2:{ (* cannot be done: nothing written *)
-      cbn [fst snd]. rewrite vt_run_nil. split; [reflexivity|exact Hok]. }
+      cbn [fst snd scroll_res]. reflexivity. }
   destruct (((0 <? left) || (left + cols <? v_cols v)) && (cols <? 2)) eqn:E4.
-  { cbn [fst snd]. rewrite vt_run_nil. split; [reflexivity|exact Hok]. }
+  { cbn [fst snd scroll_res]. reflexivity. }
   (* strategy 2: both pairs of margins *)
-  cbn [fst snd].
+  cbn [fst snd scroll_res].
   assert (Hlines2 : 2 <= lines) by lia.
   change (if 1 <? d then [csi_n d 77] else if d =? 1 then [csi_0 77]
           else if d =? -1 then [csi_0 76] else if d <? -1 then [csi_n (- d) 76] else [])
@@ -1113,7 +1131,7 @@ Proof.
     destruct F5 as (B1 & B2 & B3 & B4 & B5).
     rewrite run_decstbm_reset by (rewrite B1, A1; lia).
     rewrite run_decslrm_reset by (vt_unfold; rewrite ?B5, ?A5, ?B2, ?A2; assumption || lia).
-    apply scroll_effect; try assumption.
+    apply scroll_shift_intro; try assumption.
     + unfold same_frame. vt_unfold. cbn [mg_top mg_bot mg_left mg_right].
       refine (conj _ (conj _ (conj _ (conj _ _)))); try congruence.
       rewrite Hm. unfold full_margins. f_equal; congruence.
@@ -1154,7 +1172,7 @@ Proof.
     set (w5 := vt_run (horiz_tokens rt) w4) in *. clearbody w5.
     destruct F5 as (B1 & B2 & B3 & B4 & B5).
     rewrite run_decstbm_reset by (rewrite B1, A1; lia).
-    apply scroll_effect; try assumption.
+    apply scroll_shift_intro; try assumption.
     + unfold same_frame. vt_unfold. cbn [mg_top mg_bot mg_left mg_right].
       refine (conj _ (conj _ (conj _ (conj _ _)))); try congruence.
       rewrite B3, A3. cbn [mg_left mg_right]. rewrite Hm. unfold full_margins. cbn [mg_left mg_right].
@@ -1178,6 +1196,21 @@ Proof.
            reflexivity.
       * destruct ((top <=? y) && (y <? top + lines) && (left <=? x) && (x <? left + cols)) eqn:C2; [lia|].
         reflexivity.
+Qed.
+
+Lemma scroll_ok : forall v slrm r d rt, vt_ok v -> in_range (RScroll r d rt) v ->
+  (slrm = true -> md_lrmm (v_md v) = true) ->
+  effect_ok (RScroll r d rt) (fst (xt_scrollrect slrm (v_cols v) r d rt))
+            (match snd (xt_scrollrect slrm (v_cols v) r d rt) with [] => true | _ => false end) v
+            (vt_run (snd (xt_scrollrect slrm (v_cols v) r d rt)) v) /\
+  vt_ok (vt_run (snd (xt_scrollrect slrm (v_cols v) r d rt)) v).
+Proof.
+  intros v slrm r d rt Hok Hr Hlrmm.
+  pose proof (scroll_exact v slrm r d rt Hok Hr Hlrmm) as H.
+  destruct (xt_scrollrect slrm (v_cols v) r d rt) as [ret ts]. cbn [fst snd] in *.
+  destruct ret; cbn [scroll_res] in H.
+  - destruct H as (H1 & H2 & H3 & H4). apply scroll_effect; assumption.
+  - subst ts. rewrite vt_run_nil. split; [reflexivity|exact Hok].
 Qed.
 
 (* a scroll that reports failure writes nothing *)
